@@ -626,6 +626,58 @@ def run_dynamic_parameters(_):
     return part.result()
 
 
+def run_process_sets(_):
+    """templates with free parameters listed in the system line are process sets; S(1,0).v in a query is the v of S's template
+    (never a global of that name), for every subset of {global, S, U} declaring v"""
+    part = engine.Part()
+    w = engine.worker("fast")
+    ub = {"global": 10, "S": 40, "U": 41}
+    for bits in itertools.product((0, 1), repeat=3):
+        D = {lv for lv, b in zip(("global", "S", "U"), bits) if b}
+        d = lambda lv: "int[0,%d] v; " % ub[lv] if lv in D else ""      # noqa: E731
+        doc = X.nta(d("global") + "int g;",
+                    [X.template("S", params="const int[0,2] sid, const int[0,1] s2", decl=d("S") + "int sl;",
+                                locations=[X.location("id0", "M0"), X.location("id1", "M1")], init="id0", transitions=[X.transition("id0", "id1", guard="sid == 1")]),
+                     X.template("U", params="const int[0,2] uid", decl=d("U") + "int ul;", locations=[X.location("id2", "N0")], init="id2")],
+                    "system S, U;")
+        key = "process-set:" + ("+".join(sorted(D)) or "none")
+        qs = [("E<> S(1,0).v >= 0", ["S"]), ("E<> U(2).v >= 0", ["U"]), ("E<> S(1,0).v + U(2).v + v >= 0", ["S", "U", "global"]),
+              ("E<> forall (i : int[0,2]) S(i,0).v >= i", ["S"]), ("E<> S(U(1).v, 0).v >= U(0).v", ["S", "U", "U"]), ("E<> U(S(0,0).sid).v >= 0", ["U"]),
+              ("E<> S(2,1).M1 && v >= 0", ["global"]), ("E<> S(v,0).M0", ["global"])]
+        for q, exp in qs:
+            rp = {"op": "queries", "ctx": {"kind": "xml", "text": doc}, "items": [q], "symtypes": True}
+            qr = w.call_safe(rp, timeout=60)
+            part.count()
+            if qr.get("died"):
+                engine.check_crash(part, PID, qr, "query " + q, rp)
+                continue
+            if qr["ctx"]["errors"] or qr["ctx"]["exc"]:
+                raise RuntimeError("C07 generator bug: process-set model rejected: %s" % str(qr["ctx"])[:300])
+            part.nontrivial_case(key + ":" + q)
+            x = qr["results"][0]
+            want = [lv if lv in D else None for lv in exp]
+            if None in want:
+                if x.get("sexpr") is not None and not x.get("err"):
+                    part.outcome("process-set:misbound")
+                    part.violation("process-set:accepted-without-declaration:%s" % q.split()[1],
+                                   "v declared at {%s}: query `%s` is accepted although a use of v has no declaration in the process's template "
+                                   "(or globally): %s" % (key, q, (x.get("sexpr") or "")[:200]), rp)
+                else:
+                    part.outcome("process-set:reported")
+                continue
+            got = [next((lv for lv, u in ub.items() if u == int(b)), "<ub%s>" % b) for b in
+                   re.findall(r":\(RANGE \(INT\) <\(CONSTANT:INT 0\)> <\(CONSTANT:INT (1[0]|4[01])\)>\)", x.get("sexpr") or "")]
+            # every occurrence (DOT member types and the bare identifier) in the order of the rendering: a member access shows its
+            # own type before its operand, so the outer access of S(U(1).v, 0).v comes before the inner one
+            if got != want:
+                part.outcome("process-set:misbound")
+                part.violation("process-set:misbound:%s:expected-%s:got-%s" % (q.split()[1], "/".join(want), "/".join(got)),
+                               "v declared at {%s}: query `%s` binds v to %s, scoping says %s (%s)" % (key, q, got, want, [e["msg"] for e in x.get("err", [])][:2]), rp)
+            else:
+                part.outcome("process-set:bound-as-scoped")
+    return part.result()
+
+
 def main():
     t = engine.tier()
     n_sub = sum(1 for _ in subsets())
@@ -650,6 +702,7 @@ def main():
     run_late(rep)
     rep.merge(run_dynamic(None))
     rep.merge(run_dynamic_parameters(None))
+    rep.merge(run_process_sets(None))
     rep.assumptions = ["the declaration a use is bound to is identified by the upper bound of the symbol's declared range",
                        "a parameter and a local of the same name in one frame are a duplicate definition and are not enumerated"]
     sys.exit(rep.finish())
